@@ -197,6 +197,9 @@ def ppf(q: np.ndarray, a: np.ndarray | float, b: np.ndarray | float) -> np.ndarr
     if q_right.size:
         out[case_right] = ppf_right(q_right, a[case_right], b[case_right])
 
+    # The inversion above is subject to rounding errors: near the ends of the interval (and, for
+    # ``q`` very close to 1, far beyond ``b``) the result may lie outside of ``[a, b]``.
+    out = np.clip(out, a, b)
     out[q == 0] = a[q == 0]
     out[q == 1] = b[q == 1]
     out[a == b] = math.nan
